@@ -80,7 +80,7 @@ class UnsignedN(struct.Struct):
         super().__init__(fmt)
 
     def unpack(self, buffer):
-        return super().unpack(buffer + b'\x00' * (super().size - self.size))
+        return super().unpack(bytes(buffer) + b'\x00' * (super().size - self.size))
 
     def pack(self, *v):
         if not 0 <= v[0] < (1 << self.width):
@@ -118,7 +118,7 @@ class IntegerN(struct.Struct):
         mask = 0x80
         neg = (buffer[self.size - 1] & mask) > 0
         return super().unpack(
-            buffer + (b'\xff' if neg else b'\x00') * (super().size - self.size)
+            bytes(buffer) + (b'\xff' if neg else b'\x00') * (super().size - self.size)
         )
 
     def pack(self, *v):
